@@ -443,6 +443,15 @@ impl std::future::Future for RawFut {
     }
 }
 
+/// `v` is owned by a frame that unwinds because of a panic which is caught inside the model.
+fn drop_by_caught_unwind<T>(v: T) {
+    let r = std::panic::catch_unwind(std::panic::AssertUnwindSafe(move || {
+        let _owned = v;
+        std::panic::resume_unwind(Box::new("verif-caught"));
+    }));
+    assert!(r.is_err());
+}
+
 /// The model closure: what `Builder::check` runs once per iteration.
 pub fn run_main(prog: SArc<Prog>) {
     let needs_main_handle = prog
@@ -665,6 +674,7 @@ fn run_thread(sh: SArc<Sh>, t: usize) {
                     Err(_) => 0,
                 });
             }
+            "droprx" if ins.k == "unwind" => drop_by_caught_unwind(sh.rxs[oi()].get().take()),
             "droprx" => drop(sh.rxs[oi()].get().take()),
             "aclone" => {
                 let s = sh.handles.get().remove(&ins.o).expect("harness: aclone of missing handle");
@@ -681,6 +691,7 @@ fn run_thread(sh: SArc<Sh>, t: usize) {
             "adrop" => {
                 let s = sh.handles.get().remove(&ins.o).expect("harness: adrop of missing handle");
                 match s {
+                    Slot::Arc(a) if ins.k == "unwind" => drop_by_caught_unwind(a),
                     Slot::Arc(a) => drop(a),
                     Slot::Raw(p) => unsafe { loom::sync::Arc::decrement_strong_count(p) },
                 }
@@ -755,6 +766,11 @@ fn run_thread(sh: SArc<Sh>, t: usize) {
             "tnew" => {
                 let tr = loom::alloc::Track::new(());
                 sh.trks.get().insert(ins.o.clone(), tr);
+            }
+            // k = "unwind": the value is dropped by the unwinding of a panic the program catches itself
+            "tdrop" if ins.k == "unwind" => {
+                let tr = sh.trks.get().remove(&ins.o);
+                drop_by_caught_unwind(tr);
             }
             "tdrop" => drop(sh.trks.get().remove(&ins.o)),
             "tforget" => std::mem::forget(sh.trks.get().remove(&ins.o)),
